@@ -1,6 +1,10 @@
 import CJ.Drv.Loop
-/-! Driver for C19 (stub until the models are written). -/
+import CJ.Drv.Config
+/-! Driver for C19: configuration loading, reload, statistics printer. -/
 open CJ.Drv
 
 def main : IO Unit := runDriver fun
+  | "load" :: args => Config.handleLoad args
+  | "reload" :: args => Config.handleReload args
+  | "stats" :: args => Config.handleStats args
   | _ => none
